@@ -39,6 +39,10 @@ const (
 type event struct {
 	typ   int
 	rev   int64
+	pass  int // the controller pass that made this write (0: not the controller)
+	// relevant: the event changes something a pass bases its allocatable decisions on (existence, condition status,
+	// spec.disabled, deletionTimestamp); finalizer and unrelated-field updates are not.
+	relevant bool
 	pool  *v3.IPPool
 	block *v3.IPAMBlock
 }
@@ -53,6 +57,8 @@ type apiServer struct {
 	owner    map[string]string // block name -> uid of the pool it was allocated from
 	poolLog  []event
 	blockLog []event
+	curPass  int // set while a controller write is being applied
+	lastLogged map[string]*v3.IPPool
 }
 
 var poolGR = schema.GroupResource{Group: "projectcalico.org", Resource: "ippools"}
@@ -63,7 +69,15 @@ func (a *apiServer) bump() string {
 }
 
 func (a *apiServer) logPool(typ int, p *v3.IPPool) {
-	a.poolLog = append(a.poolLog, event{typ: typ, rev: a.rev, pool: p.DeepCopy()})
+	rel := typ != evUpd
+	if prev := a.lastLogged[string(p.UID)]; prev != nil && !rel {
+		ps, _ := allocCond(prev)
+		ns, _ := allocCond(p)
+		rel = ps != ns || prev.Spec.Disabled != p.Spec.Disabled || (prev.DeletionTimestamp == nil) != (p.DeletionTimestamp == nil)
+	}
+	cp := p.DeepCopy()
+	a.lastLogged[string(p.UID)] = cp
+	a.poolLog = append(a.poolLog, event{typ: typ, rev: a.rev, pass: a.curPass, relevant: rel, pool: cp})
 }
 
 func (a *apiServer) logBlock(typ int, b *v3.IPAMBlock) {
@@ -209,6 +223,8 @@ type incarnation struct {
 	id       int
 	stop     chan struct{}
 	dead     bool
+	snapPos  int // position of the pool cache in the pool event log when the running reconcile listed it
+	passID   int // sequence number of the running reconcile pass
 	poolInf  *informer
 	blockInf *informer
 }
@@ -244,6 +260,9 @@ func (inc *incarnation) onPoolList() {
 	h.mu.Lock()
 	defer h.mu.Unlock()
 	h.r.Probe("reconcile_started")
+	inc.snapPos = inc.poolInf.pos
+	h.passSeq++
+	inc.passID = h.passSeq
 	lag := len(h.api.poolLog) - inc.poolInf.pos
 	if inc.dead || inc != h.inc {
 		h.r.Logf("ctl#%d: reconcile starts (defunct incarnation)", inc.id)
@@ -311,7 +330,9 @@ func (inc *incarnation) react(a k8stesting.Action) (bool, runtime.Object, error)
 		h.r.Logf("ctl#%d: %s(%s) -> injected server error, no effect", inc.id, what, obj.Name)
 		return true, nil, apierrors.NewInternalError(fmt.Errorf("injected"))
 	}
+	h.api.curPass = inc.passID
 	res, err := h.api.controllerWrite(inc, sub, what, obj)
+	h.api.curPass = 0
 	if err == nil && f == 3 {
 		h.r.Fault("api_commit_then_error")
 		h.r.Logf("ctl#%d: %s(%s) committed but the reply was lost", inc.id, what, obj.Name)
@@ -352,7 +373,7 @@ func (a *apiServer) controllerWrite(inc *incarnation, sub, what string, obj *v3.
 		a.logPool(evUpd, stored)
 		h.ctlWrites++
 		h.r.Logf("ctl#%d: UpdateStatus %s", inc.id, poolLine(stored))
-		h.afterConditionWrite(stored, wasTrue)
+		h.afterConditionWrite(inc, stored, wasTrue)
 		h.afterAPIChange()
 		return stored.DeepCopy(), nil
 	}
